@@ -544,6 +544,7 @@ class _SetOperation(Selectable, Term):  # type:ignore[misc]
 
     @builder
     def orderby(self, *fields: Field, **kwargs: Any) -> "Self":  # type:ignore[return]
+        orderbys = list(self._orderbys)
         for field in fields:
             field = (
                 Field(field, table=self.base_query._from[0])  # type:ignore[assignment]
@@ -551,7 +552,8 @@ class _SetOperation(Selectable, Term):  # type:ignore[misc]
                 else self.base_query.wrap_constant(field)
             )
 
-            self._orderbys.append((field, kwargs.get("order")))
+            orderbys.append((field, kwargs.get("order")))
+        self._orderbys = orderbys
 
     @builder
     def limit(self, limit: int) -> "Self":  # type:ignore[return]
@@ -563,23 +565,38 @@ class _SetOperation(Selectable, Term):  # type:ignore[misc]
 
     @builder
     def union(self, other: Selectable) -> "Self":  # type:ignore[return]
-        self._set_operation.append((SetOperation.union, other))  # type:ignore[arg-type]
+        self._set_operation = [
+            *self._set_operation,
+            (SetOperation.union, other),  # type:ignore[list-item]
+        ]
 
     @builder
     def union_all(self, other: Selectable) -> "Self":  # type:ignore[return]
-        self._set_operation.append((SetOperation.union_all, other))  # type:ignore[arg-type]
+        self._set_operation = [
+            *self._set_operation,
+            (SetOperation.union_all, other),  # type:ignore[list-item]
+        ]
 
     @builder
     def intersect(self, other: Selectable) -> "Self":  # type:ignore[return]
-        self._set_operation.append((SetOperation.intersect, other))  # type:ignore[arg-type]
+        self._set_operation = [
+            *self._set_operation,
+            (SetOperation.intersect, other),  # type:ignore[list-item]
+        ]
 
     @builder
     def except_of(self, other: Selectable) -> "Self":  # type:ignore[return]
-        self._set_operation.append((SetOperation.except_of, other))  # type:ignore[arg-type]
+        self._set_operation = [
+            *self._set_operation,
+            (SetOperation.except_of, other),  # type:ignore[list-item]
+        ]
 
     @builder
     def minus(self, other: Selectable) -> "Self":  # type:ignore[return]
-        self._set_operation.append((SetOperation.minus, other))  # type:ignore[arg-type]
+        self._set_operation = [
+            *self._set_operation,
+            (SetOperation.minus, other),  # type:ignore[list-item]
+        ]
 
     def __add__(self, other: Selectable) -> "Self":  # type:ignore[override]
         return self.union(other)
